@@ -99,6 +99,7 @@ def run_case(h, args, twin):
     from crosshair.util import NotDeterministic
 
     stubs.reset()
+    rt.EXTRA.clear()
     rt.set_fuel(h.fuel)
     del rt.ROUNDS[:]
     STATS["paths"] += 1
@@ -134,6 +135,11 @@ def run_case(h, args, twin):
     except Exception:
         reason = "<reason>"
     STATS["fail"] = {"args": real, "reason": reason}
+    if rt.EXTRA:
+        try:
+            STATS["fail"]["extra"] = {k: _js(deep_realize(v)) for k, v in rt.EXTRA.items()}
+        except Exception:
+            pass
     return False
 
 
